@@ -105,7 +105,10 @@ def analyze(ctx, want):
             continue
         n_true += 1
         cs = " && ".join("%s=%s" % (S.vstr(c), o) for c, o in conds)
-        one_state = any(c[0] == "binop" and c[1] == "Eq" and "Vec::len(&self.states)" in S.vstr(c) and ("int", 1) in (c[2], c[3]) and o is True for c, o in conds)
+        def len_of_states(x):
+            # Vec::len(&self.states), <[T]>::len(..), or the length a slice pattern `[only]` tests
+            return x[0] == "app" and re.search(r"(^|::)len$", str(x[1])) is not None and re.search(r"self\.states\b", S.vstr(x)) is not None
+        one_state = any(c[0] == "binop" and c[1] == "Eq" and ((len_of_states(c[2]) and c[3] == ("int", 1)) or (len_of_states(c[3]) and c[2] == ("int", 1))) and o is True for c, o in conds)
         no_tr = any("transitions" in S.vstr(c) and "epsilon" not in S.vstr(c) and "is_empty" in S.vstr(c) and o is True for c, o in conds)
         no_eps = any("epsilon_transitions" in S.vstr(c) and "is_empty" in S.vstr(c) and o is True for c, o in conds)
         ob("C02.g", "is_empty-implies-single-state-without-edges", one_state and no_tr and no_eps,
